@@ -50,7 +50,9 @@ Plain == [m |-> "plain", k |-> 0, acc |-> 0, hi |-> 0]
 (* the code-point table is printed once so that the binding's character table can be checked against it *)
 ASSUME PrintT(<<"codes", [c \in AllChars |-> Code(c)]>>)
 
-Init == /\ src \in StrsUpTo(SourceChars, MaxLen)
+(* FormMode "policy" also runs the backslash-u VALUE strings of JsonChars (6..12 characters) *)
+Sources == StrsUpTo(SourceChars, MaxLen) \cup (IF FormMode = "policy" THEN BackslashUValues ELSE {})
+Init == /\ src \in Sources
         /\ pol \in (IF FormMode = "all" THEN {"free"} ELSE Pols \cap Policies)
         /\ phase = "esc" /\ inp = src /\ out = <<>> /\ txt = <<>> /\ mode = Plain
         /\ safe = XmlSafe(src)
